@@ -65,7 +65,10 @@ def selftest(chk, pid):
             patch = os.path.join(sdir, sid, "patch.diff")
         dst = scratch_copy(sid)
         try:
-            r = subprocess.run(["git", "apply", patch], cwd=dst, capture_output=True, text=True)
+            # the scratch copy holds the files the analysis reads; a change may also touch others (the manual), which are left out
+            touched = re.findall(r"^diff --git a/(\S+) b/", open(patch).read(), re.M)
+            skip = ["--exclude=" + f for f in touched if not os.path.exists(os.path.join(dst, f)) and not f.endswith((".rs", ".units", ".txt", ".toml"))]
+            r = subprocess.run(["git", "apply"] + skip + [patch], cwd=dst, capture_output=True, text=True)
             if r.returncode != 0:
                 r = subprocess.run(["patch", "-p1", "-s", "-i", patch], cwd=dst, capture_output=True, text=True)
             if r.returncode != 0:
